@@ -76,6 +76,12 @@ CHECKS = {
             "for built-in-class and user-class objects are replayed with an identity oracle after every step; obtain/deliver copies are equal but independent.",
             "deterministic default schedule (delivery races are C10's subject); bounded history depth; generator/memoryview left out of part V",
             "E1+E3+E5", "DESIGN.md#c03"),
+    "C05": ("fault_enumeration",
+            "deviation-bounded exhaustive enumeration of transport answers (short reads/writes, timeouts, EAGAIN) and enumeration of EOF / hard errors at every byte offset, on the real Channel + SocketStream/PipeStream over scripted endpoints",
+            "For every packet-size class (0 .. 200000 around the compression threshold and the I/O chunk size), content kind, sender/receiver compression setting and short packet sequences: every execution with <= 2 (quick) / 3 (thorough) "
+            "non-default transport answers at every call index, and a cut (EOF, ECONNRESET, EPIPE, EBADF, EIO) at every byte offset on the read side and after every partial count on the write side.",
+            "reliable byte FIFO between the endpoints (sender/receiver interleaving only changes availability, which is what is enumerated); at most two consecutive transient errors per call",
+            "E4", "DESIGN.md#c05"),
 }
 
 NOT_APPLICABLE = {}
@@ -118,6 +124,8 @@ def main():
         "engines": [
             {"name": "E1", "path": "/verif/mc/sched.py", "serves_properties": sorted(CHECKS),
              "kind_free_text": "controlled logical threads, virtual clock, sim locks/conditions/streams; every choice recorded and replayable"},
+            {"name": "E4", "path": "/verif/mc/fragio.py", "serves_properties": [p for p in ("C05", "C11", "C16", "C17", "C18") if p in CHECKS],
+             "kind_free_text": "scripted transport endpoints with deviation-bounded answer enumeration (fragio.py) and the simulated socket/poll layer (simos.py)"},
             {"name": "E5", "path": "/verif/mc/refcodec.py", "serves_properties": [p for p in ("C04", "C19", "C13", "C14", "C15", "C07", "C08", "C16", "C18") if p in CHECKS],
              "kind_free_text": "value grammar (mc/values.py), independent reference codec and scripted raw peer"},
             {"name": "E3", "path": "/verif/mc/bfs.py", "serves_properties": [p for p in ("C10", "C15", "C08", "C02", "C03", "C07", "C17", "C18") if p in CHECKS],
